@@ -11,6 +11,7 @@ ASSUMPTIONS = [
     "user alphabets: dictionaries over the 20 keys with symbolic presence and symbolic values from the 20 letters and the non-letters "
     "'a', 'X', 'B', 'AA', '', 1; two keys beyond the 20 letters ('X', 'B') may be present with any of those values; the empty dictionary means 'no user alphabet' (API default) and is not asserted to be rejected",
     "integer alphabet sizes only (0..25); non-integer spellings are not asserted",
+    "every reduction is requested on an object on which other reductions (a user alphabet, other sizes) were requested first",
 ]
 OUTSIDE = ["sequence lengths above the bound", "non-integer alphabetSize arguments", "user dictionaries with extra keys other than 'X' and 'B'"]
 NMAX = {"quick": 5, "thorough": 12}
@@ -77,8 +78,14 @@ def run_item(item):
     if kind in ("pre", "bad"):
         size = item["size"]
 
+        SWAP = {a: a for a in AA}
+        SWAP.update({"K": "E", "E": "K", "L": "A", "A": "L"})
+
         def thunk():
             sp = I.call(SequenceParameters, [s], {})
+            # history on the same object: a user-alphabet reduction and another size were asked for first
+            I.call(sp.get_reduced_alphabet_sequence, [], {"userAlphabet": dict(SWAP)})
+            I.call(sp.get_reduced_alphabet_sequence, [2 if size != 2 else 3], {})
             return I.call(sp.get_reduced_alphabet_sequence, [size], {})
 
         def on_raise(ob, exc, m):
@@ -145,6 +152,9 @@ def run_item(item):
 
     def thunk():
         sp = I.call(SequenceParameters, [s], {})
+        # history on the same object: predefined reductions were asked for first
+        I.call(sp.get_reduced_alphabet_sequence, [20], {})
+        I.call(sp.get_reduced_alphabet_sequence, [5], {})
         return I.call(sp.get_reduced_alphabet_sequence, [], {"userAlphabet": ud})
 
     def on_raise(ob, exc, m):
@@ -182,6 +192,15 @@ def replay(cex):
     from localcider.sequenceParameters import SequenceParameters
     seq = cex["seq"]
     sp = SequenceParameters(seq)
+    swap = {a: a for a in AA}
+    swap.update({"K": "E", "E": "K", "L": "A", "A": "L"})
+    try:      # same-object history used by the symbolic items
+        if cex["kind"] == "user":
+            sp.get_reduced_alphabet_sequence(20); sp.get_reduced_alphabet_sequence(5)
+        else:
+            sp.get_reduced_alphabet_sequence(userAlphabet=swap); sp.get_reduced_alphabet_sequence(2 if cex.get("size") != 2 else 3)
+    except Exception:
+        pass
     if cex["kind"] == "user":
         d = cex["userdict"]
         total_valid = set(d) >= set(AA) and all(isinstance(d[a], str) and d[a] in AA for a in AA)
@@ -217,5 +236,8 @@ def finding_key(cex):
 
 def fallback(item):
     if item["kind"] == "user":
-        return []
+        swap = {a: a for a in AA}; swap.update({"K": "E", "E": "K"})
+        rot = {a: AA[(i + 1) % 20] for i, a in enumerate(AA)}
+        part = {a: ("L" if a in "LVIMCAGSTPFYW" else "E") for a in AA}
+        return [dict(seq=q, kind="user", size=None, userdict=d) for d in (swap, rot, part) for q in fallback_seqs(item, 6)]
     return [dict(seq=q, kind=item["kind"], size=item.get("size")) for q in fallback_seqs(item)]
